@@ -334,30 +334,41 @@ func runC17Child(c *Ctx) error {
 	if raceEnabled {
 		fmt.Fprintln(os.Stderr, "c17child: race detector on")
 	}
-	if err := c17FirstUse(c); err != nil {
-		return err
+	phaseT0 := time.Now()
+	phase := func(name string) {
+		if os.Getenv("C17_TIMING") != "" {
+			c.Note("phase %s: %v", name, time.Since(phaseT0).Round(10*time.Millisecond))
+		}
+		phaseT0 = time.Now()
 	}
-	if err := c17Unreleased(c); err != nil {
-		return err
-	}
-	if err := c17Sha2pc(c); err != nil {
-		return err
-	}
-	if err := c17ProtoSessions(c); err != nil {
-		return err
-	}
-	if err := c17Parsed(c); err != nil {
-		return err
+	for _, ph := range []struct {
+		name string
+		f    func(*Ctx) error
+	}{{"first-use", c17FirstUse}, {"unreleased", c17Unreleased}, {"sha2pc", c17Sha2pc}, {"proto-sessions", c17ProtoSessions},
+		{"parsed", c17Parsed}, {"doors", c17Doors}} {
+		if err := ph.f(c); err != nil {
+			return err
+		}
+		phase(ph.name)
 	}
 	for sr := 0; sr < c.N(8, 120); sr++ {
 		if err := c17Sessions(c, sr); err != nil {
 			return err
 		}
 	}
+	phase("sessions")
 	rounds := c.N(60, 1500)
+	// further rounds of the same kind under GOMAXPROCS 1 / 2 / 2 x NumCPU and GC pressure
+	// (appended, so that the rounds above are what they were)
+	envRounds := c.N(16, 200)
 	keyLens := []int{16, 24, 32}
-	for round := 0; round < rounds; round++ {
+	for round := 0; round < rounds+envRounds; round++ {
 		r := c.rng.Fork()
+		restoreEnv := func() {}
+		envName, envT0 := "", time.Now()
+		if round >= rounds {
+			envName, restoreEnv = c17SetEnv(c, 1+(round-rounds)%4)
+		}
 		opts := GenOpts{MinIn: 1, MaxIn: 6, MinGates: 1, MaxGates: 30, MaxOut: 4, Overwrite: true}
 		if round%7 == 6 {
 			opts.MinGates, opts.MaxGates = 150, 400
@@ -465,6 +476,15 @@ func runC17Child(c *Ctx) error {
 			}
 			preFail(site, &failRd{r: NewRNG(r.U64()), left: fk})
 		}
+		if round%2 == 0 {
+			// error site 1: aes.NewCipher rejects the key (R has been drawn, nothing written yet)
+			g, err := circ.Garble(&failRd{r: NewRNG(uint64(round)), left: 1 << 30}, key[:len(key)-1-round%5])
+			logEv(c17Event{Kind: 3, T: M, A: 1})
+			c.Hist("failing-garble:site1")
+			if err == nil || g != nil {
+				fail("c17:garble:no-error", "Garble with a key of invalid length returned no error", map[string]interface{}{"round": round, "site": 1})
+			}
+		}
 		for x := 0; x < 2; x++ {
 			g, err := circ.Garble(&blockLog{r: NewRNG(r.U64())}, key)
 			if err != nil {
@@ -527,11 +547,15 @@ func runC17Child(c *Ctx) error {
 							}
 							call.Comp = JoinOutputs(circ, comp)
 						case "gfail":
-							g, err := circ.Garble(&failRd{r: NewRNG(o.seed), left: o.fk}, key)
+							gkey, left := key, o.fk
 							site := 2
 							if o.fk == 0 {
 								site = 0
 							}
+							if o.seed%4 == 3 {
+								gkey, left, site = key[:len(key)-1], 1<<30, 1 // aes.NewCipher fails
+							}
+							g, err := circ.Garble(&failRd{r: NewRNG(o.seed), left: left}, gkey)
 							logEv(c17Event{Kind: 3, T: t, A: uint64(site)})
 							if err == nil || g != nil {
 								fail("c17:garble:no-error", "Garble with a failing entropy source returned no error",
@@ -695,14 +719,24 @@ func runC17Child(c *Ctx) error {
 				evs = append(evs, L(I(2), I(e.T), I(int(e.A))))
 			case 3:
 				nextID++
+				if e.T < M {
+					c.Hist(fmt.Sprintf("failing-garble-concurrent:site%d", e.A))
+				}
 				evs = append(evs, L(I(3), I(e.T), I(int(e.A)), I(1)))
 			}
 		}
 		c.Case(L(I(1), I(M+1), L(evs...)), L(I(1), I(nextID), I(live)))
 		runtime.KeepAlive(keep)
 		runtime.KeepAlive(pre)
+		restoreEnv()
+		if envName != "" && os.Getenv("C17_TIMING") != "" {
+			c.Note("round %d under %s: %v", round, envName, time.Since(envT0).Round(time.Millisecond))
+		}
 		c.Hist(fmt.Sprintf("goroutines:%d", M))
 		c.Hist(fmt.Sprintf("scratch-reuse:%v", len(ids) < nGarble))
+		if round == rounds-1 {
+			phase("rounds")
+		}
 		if round < 3 {
 			c.Sample(map[string]interface{}{"round": round, "goroutines": M, "garbles": nGarble, "evals": nEval, "scratches": len(ids), "events": len(events)})
 		}
